@@ -2002,10 +2002,13 @@ void SPxMainSM<R>::trivialHeuristic(SPxLPBase<R>& lp)
    VectorBase<R>         upLocks(lp.nCols());
    VectorBase<R>         downLocks(lp.nCols());
 
-   R            zeroObj = this->m_objoffset;
-   R            lowerObj = this->m_objoffset;
-   R            upperObj = this->m_objoffset;
-   R            lockObj = this->m_objoffset;
+   // the values below are computed with maxObj(), i.e. for the maximization form; the objective offset is kept in the sense of
+   // the LP, so it enters with the opposite sign for a minimization problem
+   const R      offset = (lp.spxSense() == SPxLPBase<R>::MINIMIZE) ? R(-this->m_objoffset) : R(this->m_objoffset);
+   R            zeroObj = offset;
+   R            lowerObj = offset;
+   R            upperObj = offset;
+   R            lockObj = offset;
 
    bool            zerovalid = true;
 
@@ -2139,7 +2142,8 @@ bool SPxMainSM<R>::checkSolution(SPxLPBase<R>& lp, VectorBase<R> sol)
 template <class R>
 void SPxMainSM<R>::propagatePseudoobj(SPxLPBase<R>& lp)
 {
-   R pseudoObj = this->m_objoffset;
+   // (maximization form, see trivialHeuristic())
+   R pseudoObj = (lp.spxSense() == SPxLPBase<R>::MINIMIZE) ? R(-this->m_objoffset) : R(this->m_objoffset);
 
    for(int j = lp.nCols() - 1; j >= 0; --j)
    {
